@@ -41,6 +41,10 @@ def gen_cases(seed, tier):
     cases.append(dict(kind="large", devices=1))
     cases.append(dict(kind="devcount", devices=1))
     cases.append(dict(kind="devcount", devices=4))
+    # the same box in workers that HAVE 8 (4) devices: an explicitly requested device count below / above the available one
+    for lo, dv in ((1, 8), (60, 8), (125, 8), (250, 8), (33, 4), (190, 4)):
+        cases.append(dict(kind="box", n_lo=lo, n_hi=lo + step - 1, stride=2 if tier == "thorough" else 60,
+                          cstride=1 if tier == "thorough" else 16, offset=int(seed) % 60, devices=dv))
     return cases
 
 
@@ -200,6 +204,12 @@ def run_case(case):
     n_inv = contracts.COUNTS.get("BatchProcessor.invariant", 0) - ev0
     if n_inv == 0:
         return dict(status="error", detail="contract never evaluated (decoration bypassed?)")
+    if case["devices"] > 1:
+        if len(jax.devices()) != case["devices"]:
+            return dict(status="error", detail=f"harness: expected {case['devices']} emulated devices, got {len(jax.devices())}")
+        # not part of the enumerated box (that is counted once, in the single-device workers)
+        return dict(status="ok", n_obs=0, distinct=0, layouts=n_layout, invariant_evals=n_inv, triples_multi_device_worker=n_tri,
+                    cls=[f"box-with-{case['devices']}-devices-available", case["n_lo"]])
     return dict(status="ok", n_obs=n_tri, distinct=n_nontriv, layouts=n_layout, invariant_evals=n_inv,
                 cls=["box", case["n_lo"]])
 
@@ -209,6 +219,7 @@ def aggregate(records, cases):
     return dict(triples=sum(r.get("n_obs", 0) for r in ok if r["cls"][0] == "box"),
                 large_triples_outside_box=sum(r.get("large_triples", 0) for r in ok),
                 layouts_checked=sum(r.get("layouts", 0) for r in ok),
+                triples_in_workers_with_more_devices=sum(r.get("triples_multi_device_worker", 0) for r in ok),
                 contract_evaluations=sum(r.get("invariant_evals", 0) for r in ok),
                 box="n_states 1..260 x max_batch_size {1..70,127,128,129,1024} x devices 1..8")
 
